@@ -25,9 +25,21 @@ def Sugg.getPreEdit (env : Env) : Sugg → Nat → Res Str
 
 /-- what the engine sees of the two per-user files.  Parsing (`serde_json`) is outside the
     model: a file is represented by its parse result. -/
+/-- a per-user file as the engine can see it -/
+inductive FileState where
+  | absent                 -- cannot be read at all
+  | unreadable             -- present, but not a JSON object of strings (truncated, wrong shape, garbage)
+  | parsed (st : Store)    -- parses to the map `st`
+  deriving Repr, Inhabited
+
+/-- the content the engine uses: unreadable is treated as absent -/
+def FileState.content : FileState → Store
+  | .parsed st => st
+  | _ => []
+
 structure FS where
-  /-- selections file: `none` = absent or unreadable; `some st` = parses to the map `st` -/
-  sel : Option Store := none
+  /-- learned-selections file -/
+  sel : FileState := .absent
   /-- user auto-correct file: `none` = cannot be opened; `some (mtime, parse result)` -/
   ac : Option (Nat × Option Store) := none
   /-- does `std::fs::write` of the selections file succeed? -/
@@ -60,7 +72,7 @@ def pNew (fs : FS) : PState :=
   let (modified, ua) : Nat × Store := match fs.ac with
     | some (t, some st) => (t, st)
     | _ => (0, [])
-  { selections := fs.sel.getD [], userAutocorrect := ua, modified := modified }
+  { selections := fs.sel.content, userAutocorrect := ua, modified := modified }
 
 /-- `<dyn Method>::new`; `none` = `FixedMethod::new` unwrap on a missing/ill-formed layout (out of contract) -/
 def mNew (w : World) (fs : FS) (layoutPath : String) : Option MState :=
@@ -146,7 +158,7 @@ def step (w : World) (c : Ctx) (fs : FS) : Event → Res (Ctx × FS × Out)
       | .error e => .error e
       | .ok (s', wr) =>
         let fs' := match wr with
-          | some st => if fs.writable then { fs with sel := some st } else fs
+          | some st => if fs.writable then { fs with sel := .parsed st } else fs
           | none => fs
         .ok ({ c with m := .phonetic s' }, fs', .unit)
     | .fixed l s => .ok ({ c with m := .fixed l (fClear s) }, fs, .unit)
